@@ -35,10 +35,13 @@ type c14Sample struct {
 }
 
 type c14Scrape struct {
-	Target  int         `json:"target"`
-	Fail    bool        `json:"fail,omitempty"`
-	Samples []c14Sample `json:"samples,omitempty"`
-	Noise   []int       `json:"noise,omitempty"` // positions (mod len+1) of comment / blank / junk lines
+	Target int  `json:"target"`
+	Fail   bool `json:"fail,omitempty"`
+	// FailCode: the failing scrape is an answer with this status (and a well-formed payload) instead of a refused
+	// connection; only 200 is a successful scrape
+	FailCode int         `json:"failCode,omitempty"`
+	Samples  []c14Sample `json:"samples,omitempty"`
+	Noise    []int       `json:"noise,omitempty"` // positions (mod len+1) of comment / blank / junk lines
 }
 
 type c14Target struct {
@@ -151,6 +154,10 @@ func runC14(rec *vkit.Recorder, c *c14Case) []vkit.Violation {
 	defer os.RemoveAll(dir)
 	var cur *c14Scrape
 	rt := rtFunc(func(r *http.Request) (*http.Response, error) {
+		if cur.Fail && cur.FailCode != 0 {
+			return &http.Response{StatusCode: cur.FailCode, Status: fmt.Sprintf("%d %s", cur.FailCode, http.StatusText(cur.FailCode)), Body: ioutil.NopCloser(bytes.NewReader(renderScrape(cur))),
+				Header: http.Header{"Content-Type": []string{"text/plain"}}, Request: r}, nil
+		}
 		if cur.Fail {
 			return nil, fmt.Errorf("connection refused (scripted)")
 		}
@@ -398,7 +405,9 @@ func genC14(t *rapid.T) *c14Case {
 		sc := c14Scrape{Target: rapid.IntRange(0, nt-1).Draw(t, l+"-target")}
 		if rapid.IntRange(0, 5).Draw(t, l+"-fail") == 0 {
 			sc.Fail = true
-		} else {
+			sc.FailCode = rapid.SampledFrom([]int{0, 0, 503, 404, 204, 206, 202}).Draw(t, l+"-failCode")
+		}
+		if !sc.Fail || sc.FailCode != 0 {
 			n := rapid.IntRange(0, 14).Draw(t, l+"-n")
 			for k := 0; k < n; k++ {
 				s := c14Sample{Metric: rapid.SampledFrom(metrics).Draw(t, fmt.Sprintf("%s-m%d", l, k)), Form: rapid.IntRange(0, 3).Draw(t, fmt.Sprintf("%s-f%d", l, k))}
